@@ -284,7 +284,16 @@ def run_spec(spec):
 
     def await_(pred, what):
         nonlocal hang, stacks
-        r = watchdog.await_or_deadlock(pred, None, log, wall_timeout=40.0)
+        def owes():
+            # a request the stub CRT could complete right now has not been completed yet: the harness, not the library, is behind
+            with client.lock:
+                pend = [r for r in client.requests if not r.completed]
+            if any(not (ts[r.idx].get('hold') and not exit_began.is_set()) for r in pend):
+                return True
+            with run.slow_lock:
+                return bool(run.slow_waiting)  # ... or a slow on_done is waiting for the harness to let it return
+
+        r = watchdog.await_or_deadlock(pred, None, log, wall_timeout=40.0, harness_busy=owes)
         if r != 'done':
             hang = (r, what)
             stacks = watchdog.all_stacks()
